@@ -11,4 +11,9 @@ open Strengths.Gen.PyIdioms
 and reads dictionaries by key) -/
 theorem simulate_value_semantic : valueSemantic inv_simulate = true := by decide +kernel
 
+/-- `simulate.py` never aliases an array on purpose: no `np.asarray`, `np.frombuffer`, `.view(…)`, `memoryview` — what a function
+returns is a fresh object (the model's values are immutable; this is the source fact that lets mutation of a returned
+object be ignored) -/
+theorem simulate_no_views : views_simulate = [] := by decide +kernel
+
 end Strengths.PyIdioms
